@@ -1,16 +1,17 @@
 def _post(ctx):
     # the grammar-dependent clauses as theorems about the parser-engine interpreter (DESIGN.md 6.21, notes/C12.md):
     # the 13 grammar graphs are dumped from the built tree and the decidable side condition of
-    # Pem_clean_parse_meta_balanced is evaluated on each (coq/gen/PemMeta_<d>.v, with the theorem instantiated for the dialect)
+    # Pem_clean_parse_meta_balanced and of Pem_bracketed_shape are evaluated on each (coq/gen/PemMeta_<d>.v, PemBrk_<d>.v, with
+    # the theorems instantiated for the dialect)
     import cpem
-    cpem.pem_stage(ctx, dialects=cpem.ALL, with_cases=False, meta_balance=True)
+    cpem.pem_stage(ctx, dialects=cpem.ALL, with_cases=False, meta_balance=True, bracket_shape=True)
 
 
 CFG = dict(
     post=_post,
     prop="C12", level="proof", harness="c12",
     props_files=["theories/Props/C12.v"], corr_file="theories/Corr/C12.v", corr_module="Corr.C12",
-    extra_targets=["theories/Corr/Pem.vo", "theories/Pem/Proofs.vo", "theories/Pem/MetaBalProofs.vo"],   # imported by the generated coq/gen/PemGrammar_<d>.v / PemMeta_<d>.v
+    extra_targets=["theories/Corr/Pem.vo", "theories/Pem/Proofs.vo", "theories/Pem/MetaBalProofs.vo", "theories/Pem/BrkShapeProofs.vo"],   # imported by the generated coq/gen/PemGrammar_<d>.v / PemMeta_<d>.v / PemBrk_<d>.v
     groups={"infer": False, "linepos": False, "hull": False, "ps": False, "metapos": False, "tflinepos": False, "tfmarker": False},
     show_fn={"infer": "model_infer", "linepos": "model_linepos", "hull": "model_hull", "ps": "model_ps", "metapos": "model_metapos", "tflinepos": "model_tflinepos", "tfmarker": "model_tfmarker"},
     shard=150,
